@@ -389,12 +389,12 @@ class _SubCtx:
         self.failed = True
 
 
-def run_minimize_case(env, ctx, model, case, known_id=None):
+def run_minimize_case(env, ctx, model, case, known_id=None, func_override=None):
     """one comparison solver.minimize  vs  direct scipy on the model's layout.  `case` is JSON-able."""
     form, objn, seed, method, scen = case["form"], case["obj"], case["seed"], case["method"], case["scenario"]
     args = tuple(case.get("args", ()))
     x0, t, w = make_data(env, form, seed)
-    func = make_objective(env, objn, t, w)
+    func = func_override if func_override is not None else make_objective(env, objn, t, w)
     layout = Layout(env, model, x0)
     n = layout.n
     hess_fn = flat_hessian(env, func, layout, args) if (scen.startswith("hess") or method in NEEDS_HESS) else None
@@ -595,7 +595,7 @@ def section_minimize(env, ctx, model):
     objs = ["quad", "quartic", "coupled"]
     # every method x forms
     for mi, method in enumerate(methods):
-        forms = list(range(nf)) if ctx.thorough else [(2 * mi + int(rng.integers(0, nf))) % nf, 4 + ((mi + int(rng.integers(0, 6))) % 6)]
+        forms = [int(v) for v in rng.permutation(nf)[:6]] if ctx.thorough else [(2 * mi + int(rng.integers(0, nf))) % nf, 4 + ((mi + int(rng.integers(0, 6))) % 6)]
         for fi in dict.fromkeys(forms):
             for spelled in ([method, method.lower()] if (ctx.thorough or fi == forms[0]) else [method]):
                 case = {"form": FORMS[fi], "obj": objs[(mi + fi) % 3], "seed": int(rng.integers(0, 2**31)), "method": spelled, "scenario": "default"}
@@ -603,7 +603,7 @@ def section_minimize(env, ctx, model):
     # every keyword in a scenario where it matters
     for scen, ms in SCENARIO_METHODS.items():
         for k, method in enumerate(ms):
-            forms = list(range(nf)) if ctx.thorough else [int(rng.integers(0, nf))]
+            forms = [int(v) for v in rng.permutation(nf)[:4]] if ctx.thorough else [int(rng.integers(0, nf))]
             for fi in dict.fromkeys(forms):
                 case = {"form": FORMS[fi], "obj": objs[(k + fi) % 3], "seed": int(rng.integers(0, 2**31)), "method": method, "scenario": scen}
                 run_minimize_case(env, ctx, model, case)
@@ -612,6 +612,42 @@ def section_minimize(env, ctx, model):
         for method in ("L-BFGS-B", "Nelder-Mead"):
             case = {"form": FORMS[fi], "obj": "quad", "seed": int(rng.integers(0, 2**31)), "method": method, "scenario": "default", "args": [2.0, 0.5]}
             run_minimize_case(env, ctx, model, case)
+
+
+def section_sequence(env, ctx, model):
+    """one and the same function object minimised from a sequence of starting points of different
+    shapes / dtypes / container kinds (each call must be independent of the previous ones)"""
+    rng = ctx.rng
+    jnp, snp, BA = env.jnp, env.snp, env.BlockArray
+    T = jnp.array(common.dyadic(rng, (8,), bits=3, scale=1.0))
+    W = jnp.array(np.abs(common.dyadic(rng, (8,), bits=2, scale=2.0)) + 0.5)
+
+    def poly(z, a=1.0, b=0.0):
+        # defined for every container; depends on the shape (sums along the first axis) and on the order
+        blocks = z.arrays if isinstance(z, BA) else [z]
+        flat = jnp.concatenate([jnp.ravel(blk) for blk in blocks])
+        m = flat.shape[0]
+        val = a * jnp.sum(W[:m] * jnp.abs(flat - T[:m]) ** 2) + b
+        for i, blk in enumerate(blocks):
+            val = val + (i + 1) * 0.125 * jnp.sum(jnp.abs(jnp.sum(jnp.atleast_1d(blk), axis=0)) ** 2)
+        return val
+
+    seq = [
+        {"dtype": "float64", "shapes": [[2, 3]], "isblk": False},
+        {"dtype": "float64", "shapes": [[3, 2]], "isblk": False},
+        {"dtype": "float32", "shapes": [[6]], "isblk": False},
+        {"dtype": "float64", "shapes": [[2], [4]], "isblk": True},
+        {"dtype": "complex128", "shapes": [[3]], "isblk": False},
+        {"dtype": "float64", "shapes": [[1, 2], [2, 2]], "isblk": True},
+        {"dtype": "float64", "shapes": [[6]], "isblk": False},
+        {"dtype": "complex64", "shapes": [[1], [2]], "isblk": True},
+    ]
+    for method in (["L-BFGS-B", "Nelder-Mead", "BFGS", "trust-constr"] if ctx.thorough else ["L-BFGS-B", "Nelder-Mead"]):
+        order = list(rng.permutation(len(seq))) if ctx.thorough else list(range(len(seq)))
+        for k in order:
+            case = {"form": seq[k], "obj": "poly-shared", "seed": int(rng.integers(0, 2**31)), "method": method, "scenario": "default"}
+            run_minimize_case(env, ctx, model, case, func_override=poly)
+            ctx.count("sequence:same-function-object")
 
 
 def section_scalar(env, ctx, model):
@@ -684,7 +720,7 @@ def correspond(ctx, model):
 
     env = Env()
     timing = {}
-    for sec in (run_corpus, section_helpers, section_scalar, section_minimize):
+    for sec in (run_corpus, section_helpers, section_scalar, section_sequence, section_minimize):
         t0 = time.time()
         sec(env, ctx, model)
         timing[sec.__name__] = round(time.time() - t0, 1)
